@@ -89,7 +89,13 @@ Definition alias_split (keys : list str) (tags : list (str * str))
   | [] => None
   | found =>
       let stripped := fold_left (fun tg k => tag_del (alias_key k) tg) keys tags in
-      Some (stripped, fold_left (fun tg ka => tag_set (fst ka) (snd ka) tg) found stripped)
+      let aliased := fold_left (fun tg ka => tag_set (fst ka) (snd ka) tg) found stripped in
+      (* every key after the first (the source-specific tags) that has no alias
+         of its own is dropped from the ALIAS COPY, so that the copy does not
+         share the original's name in that source (repository fix e1b17e1) *)
+      Some (stripped,
+            fold_left (fun tg k => if existsb (fun ka => str_eqb (fst ka) k) found then tg else tag_del k tg)
+                      (tl keys) aliased)
   end.
 
 (* recursion of the transformer into struct / *struct fields ([]struct and
